@@ -4,14 +4,17 @@ import SpVerif.Model.Prompt
 import SpVerif.Model.KeepAlive
 import SpVerif.Model.Nak
 import SpVerif.Model.FileData
+import SpVerif.Model.Eof
+import SpVerif.Model.Finished
+import SpVerif.Model.Metadata
 /-!
 # C09, second half — the table of CFDP PDU kinds
 
 A complete CFDP PDU followed by further octets is either decoded exactly as the PDU alone or
-refused with a documented error. The decoders are the models of C06 (ACK, Prompt, Keep Alive, NAK)
-and C07 (File Data); this file only names their codecs (decoder + reported `packet_len`), the table
-of kinds with a common result type, and the length of the CRC trailer a decoded PDU carries.
-(EOF, Finished, Metadata join the table when their models arrive.)
+refused with a documented error. The decoders are the models of C06 (EOF, Finished, ACK, Metadata,
+NAK, Prompt, Keep Alive) and C07 (File Data); this file only names their codecs (decoder + reported
+`packet_len`), the table of kinds with a common result type, and the length of the CRC trailer a
+decoded PDU carries.
 -/
 namespace SpVerif.Prefix
 open SpVerif SpVerif.CfdpHeader
@@ -21,14 +24,18 @@ def promptCodec : Codec Prompt.Prompt := ⟨Prompt.Prompt.unpack, Prompt.Prompt.
 def keepAliveCodec : Codec KeepAlive.KeepAlive := ⟨KeepAlive.KeepAlive.unpack, KeepAlive.KeepAlive.packetLen⟩
 def nakCodec : Codec Nak.Nak := ⟨Nak.Nak.unpack, Nak.Nak.packetLen⟩
 def fileDataCodec : Codec FileData.Pdu := ⟨FileData.Pdu.unpack, FileData.Pdu.packetLen⟩
+def eofCodec : Codec Eof.Eof := ⟨Eof.Eof.unpack, Eof.Eof.packetLen⟩
+def finishedCodec : Codec Finished.Finished := ⟨Finished.Finished.unpack, Finished.Finished.packetLen⟩
+def metadataCodec : Codec Metadata.Metadata := ⟨Metadata.Metadata.unpack, Metadata.Metadata.packetLen⟩
 
 inductive PduKind
-  | ack | prompt | keepAlive | nak | fileData
+  | ack | prompt | keepAlive | nak | fileData | eof | finished | metadata
 deriving DecidableEq, Repr
 
 inductive PduDecoded
   | ack (a : Ack.Ack) | prompt (p : Prompt.Prompt) | keepAlive (k : KeepAlive.KeepAlive) | nak (k : Nak.Nak)
   | fileData (p : FileData.Pdu)
+  | eof (k : Eof.Eof) | finished (k : Finished.Finished) | metadata (k : Metadata.Metadata)
 deriving DecidableEq, Repr
 
 def PduKind.decode : PduKind → Bytes → Py PduDecoded
@@ -37,6 +44,9 @@ def PduKind.decode : PduKind → Bytes → Py PduDecoded
   | .keepAlive, d => PduDecoded.keepAlive <$> keepAliveCodec.decode d
   | .nak, d => PduDecoded.nak <$> nakCodec.decode d
   | .fileData, d => PduDecoded.fileData <$> fileDataCodec.decode d
+  | .eof, d => PduDecoded.eof <$> eofCodec.decode d
+  | .finished, d => PduDecoded.finished <$> finishedCodec.decode d
+  | .metadata, d => PduDecoded.metadata <$> metadataCodec.decode d
 
 /-- the header of a decoded PDU -/
 def PduDecoded.header : PduDecoded → PduHeader
@@ -45,6 +55,9 @@ def PduDecoded.header : PduDecoded → PduHeader
   | .keepAlive k => k.fd.header
   | .nak k => k.fd.header
   | .fileData p => p.header
+  | .eof k => k.fd.header
+  | .finished k => k.fd.header
+  | .metadata k => k.fd.header
 
 /-- `packet_len` of the decoded PDU -/
 def PduDecoded.len (r : PduDecoded) : Nat := r.header.packetLen
